@@ -114,6 +114,16 @@ pub trait Suite: RandomizedCiphersuite {
     fn api_repair_part2(deltas: &[Delta<Self>]) -> Sigma<Self>;
     fn api_repair_part3(sigmas: &[Sigma<Self>], id: Identifier<Self>, pkp: &PublicKeyPackage<Self>) -> Result<KeyPackage<Self>, Error<Self>>;
 
+    /// Further aggregation entry points the ciphersuite crate offers beside `aggregate` (Taproot: `aggregate_with_tweak`
+    /// with no / an empty / a 32-byte merkle root). Each must apply the same refusals as `aggregate`.
+    fn api_aggregate_variants(_pkg: &SigningPackage<Self>, _shares: &IdMap<Self, SignatureShare<Self>>, _pkp: &PublicKeyPackage<Self>) -> Vec<(&'static str, Result<Signature<Self>, Error<Self>>)> {
+        Vec::new()
+    }
+    /// Likewise for `round2::sign` (Taproot: `sign_with_tweak`).
+    fn api_sign_variants(_pkg: &SigningPackage<Self>, _nonces: &SigningNonces<Self>, _kp: &KeyPackage<Self>) -> Vec<(&'static str, Result<SignatureShare<Self>, Error<Self>>)> {
+        Vec::new()
+    }
+
     /// what a derived `Debug` on a secret newtype would print for this scalar
     fn scalar_debug(s: &Sc<Self>) -> String;
 
@@ -291,6 +301,21 @@ impl Suite for frost_secp256k1_tr::Secp256K1Sha256TR {
     const TAPROOT: bool = true;
     fn scalar_debug(s: &Sc<Self>) -> String {
         format!("{s:?}")
+    }
+    fn api_aggregate_variants(pkg: &SigningPackage<Self>, shares: &IdMap<Self, SignatureShare<Self>>, pkp: &PublicKeyPackage<Self>) -> Vec<(&'static str, Result<Signature<Self>, Error<Self>>)> {
+        let root = [0x5au8; 32];
+        vec![
+            ("aggregate_with_tweak/no-root", frost_secp256k1_tr::aggregate_with_tweak(pkg, shares, pkp, None)),
+            ("aggregate_with_tweak/empty-root", frost_secp256k1_tr::aggregate_with_tweak(pkg, shares, pkp, Some(&[]))),
+            ("aggregate_with_tweak/32-byte-root", frost_secp256k1_tr::aggregate_with_tweak(pkg, shares, pkp, Some(&root))),
+        ]
+    }
+    fn api_sign_variants(pkg: &SigningPackage<Self>, nonces: &SigningNonces<Self>, kp: &KeyPackage<Self>) -> Vec<(&'static str, Result<SignatureShare<Self>, Error<Self>>)> {
+        let root = [0x5au8; 32];
+        vec![
+            ("sign_with_tweak/no-root", frost_secp256k1_tr::round2::sign_with_tweak(pkg, nonces, kp, None)),
+            ("sign_with_tweak/32-byte-root", frost_secp256k1_tr::round2::sign_with_tweak(pkg, nonces, kp, Some(&root))),
+        ]
     }
     fn indep_challenge(r: &[u8], pk: &[u8], msg: &[u8]) -> Sc<Self> {
         // BIP-340: e = int(hash_{BIP0340/challenge}(bytes(r) || bytes(P) || m)) mod n; r, P x-only.
